@@ -47,8 +47,18 @@ func (g *schemaGen) wrapIn(t *TypeRef) *TypeRef {
 	case 4:
 		return ListOf(NonNull(t))
 	case 5:
-		if g.r.Chance(1, 3) {
+		// nested list types (seed C04-13: a variable one list level too shallow)
+		switch g.r.Intn(6) {
+		case 0, 1:
 			return ListOf(ListOf(t))
+		case 2:
+			return NonNull(ListOf(ListOf(t)))
+		case 3:
+			return ListOf(ListOf(NonNull(t)))
+		case 4:
+			return ListOf(NonNull(ListOf(t)))
+		default:
+			return ListOf(ListOf(ListOf(t)))
 		}
 	}
 	return t
